@@ -58,6 +58,7 @@ type sbCase struct {
 	Gated       []bool     `json:"gated"`     // per model: its loads wait for an explicit loadok/loadfail action
 	AutoFail    []bool     `json:"auto_fail"` // outcome script of the loads of non-gated models (by birth order)
 	CloseUs     int        `json:"close_us"`  // how long a runner takes to exit (real microseconds)
+	EnvStyle    int        `json:"env_style,omitempty"` // how the numeric environment values are written: 0 plain, 1 "quoted", 2 'quoted', 3 padded with blanks (the documented reader trims and unquotes)
 	CloseErr    []bool     `json:"close_err,omitempty"` // by instance id: Close does its work but reports an error (the real one returns Process.Kill's, e.g. "process already finished" after a crash)
 	Perturb     uint32     `json:"perturb"`   // 0 = none; otherwise seed of the schedule perturbation at the scheduler's log points
 	Actions     []sbAction `json:"actions"`
@@ -99,6 +100,7 @@ func sbGen(t *rapid.T) sbCase {
 	}
 	c.AutoFail = rapid.SliceOfN(rapid.SampledFrom([]bool{false, false, false, true}), 6, 6).Draw(t, "auto_fail")
 	c.CloseUs = rapid.SampledFrom([]int{0, 0, 40, 150, 400}).Draw(t, "close_us")
+	c.EnvStyle = rapid.SampledFrom([]int{0, 0, 0, 0, 1, 2, 3}).Draw(t, "env_style")
 	if rapid.IntRange(0, 2).Draw(t, "has_close_err") == 0 {
 		c.CloseErr = rapid.SliceOfN(rapid.SampledFrom([]bool{true, true, false}), 4, 4).Draw(t, "close_err")
 	}
@@ -499,7 +501,7 @@ func (e *sbEngine) newServer(gpus discover.GpuInfoList, model string, f *ggml.GG
 	e.logf("born inst=%d model=%d gpus=%v parallel=%d ctx=%d numgpu=%d vram=%d", s.id, s.model, s.gpuIDs, numParallel, opts.NumCtx, opts.NumGPU, s.vram)
 
 	// C11 (a): never more live runners than the configured maximum (the scheduler has fixed the automatic value by now)
-	if mx := int(envconfig.MaxRunners()); mx > 0 && len(others)+1 > mx {
+	if mx := e.maxRunners(); mx > 0 && len(others)+1 > mx {
 		e.violate("C11", "runner %d for model %d started while %d runners are live; maximum is %d", s.id, s.model, len(others), mx)
 	}
 	// C11 (b): one runner per model
@@ -551,6 +553,28 @@ func (e *sbEngine) newServer(gpus discover.GpuInfoList, model string, f *ggml.GG
 		e.flag("fit_checked")
 	}
 	return s, nil
+}
+
+// maxRunners: the configured limit (the case's own number, however the environment spells it); with no configured limit
+// the automatic value the scheduler has fixed by now.
+func (e *sbEngine) maxRunners() int {
+	if e.c.MaxRunners > 0 {
+		return e.c.MaxRunners
+	}
+	return int(envconfig.MaxRunners())
+}
+
+// sbEnvNum writes a number the way the case says the environment spells it.
+func sbEnvNum(style int, n int) string {
+	switch style {
+	case 1:
+		return fmt.Sprintf("%q", fmt.Sprint(n))
+	case 2:
+		return "'" + fmt.Sprint(n) + "'"
+	case 3:
+		return " " + fmt.Sprint(n) + " "
+	}
+	return fmt.Sprint(n)
 }
 
 func (e *sbEngine) getGpus() discover.GpuInfoList {
@@ -770,7 +794,7 @@ func (e *sbEngine) submit(a sbAction) {
 		if mine != nil && mine.loadOK && !mine.pingFail && sbCompat(mine, r) {
 			reuse = mine
 		}
-		if mx := int(envconfig.MaxRunners()); mine == nil && mx > 0 && len(lv) >= mx && idle > 0 {
+		if mx := e.maxRunners(); mine == nil && mx > 0 && len(lv) >= mx && idle > 0 {
 			needRoom = true
 		}
 		if mine != nil && !sbCompat(mine, r) {
@@ -780,7 +804,7 @@ func (e *sbEngine) submit(a sbAction) {
 			}
 		}
 		if mine == nil && len(lv) > 0 {
-			if mx := int(envconfig.MaxRunners()); mx > 0 && len(lv) >= mx {
+			if mx := e.maxRunners(); mx > 0 && len(lv) >= mx {
 				e.flag("at_capacity_submit")
 				if idle == 0 {
 					e.flag("eviction_wait")
